@@ -339,6 +339,21 @@ mut("C06", "mul-keeps-only-first-den", FI,
     "self.denpoly * other.denpoly) if len(other.denpoly) < 3 else "
     "ZFilter(self.numpoly * other.numpoly, self.denpoly)")
 
+mut("C06", "pow-shares-one-copy", PO,
+    "[self.copy() for unused in xrange(other - 1)]", "[self.copy()] * "
+    "(other - 1)")
+mut("C06", "sub-forgets-negation", FI,
+    "  def __sub__(self, other):\n    return self + (-other)\n\n"
+    "  def __mul__(self, other):\n    if isinstance(other, ZFilter):",
+    "  def __sub__(self, other):\n    return self + other\n\n"
+    "  def __mul__(self, other):\n    if isinstance(other, ZFilter):")
+mut("C06", "div-swaps-denominators", FI,
+    "      return ZFilter(self.numpoly * other.denpoly,\n"
+    "                     self.denpoly * other.numpoly)",
+    "      return ZFilter(self.numpoly * other.numpoly,\n"
+    "                     self.denpoly * other.denpoly)")
+
+
 # equivalent under the statement (differs only at exact half-sample ties,
 # where "nearest" allows both): "(count > self._not_playing[0][0])"
 
